@@ -79,7 +79,7 @@ def handle (req : Json) : Except String Json := do
       let s : Float := match keyed[k.seg]? with
         | some l => (match l.find? (fun x => x.1.doc == k.doc) with | some x => x.2 | none => 0.0)
         | none => 0.0
-      Json.mkObj [("id", id), ("score", fl s), ("seg", k.seg), ("doc", k.doc)]).toArray
+      Json.mkObj [("id", id), ("score", fl s), ("bits", s.toBits.toNat), ("seg", k.seg), ("doc", k.doc)]).toArray
     return Json.mkObj [
       ("hits", render res), ("all", render resAll),
       ("fast", pl.fast), ("uses_score", pl.usesScore), ("hook", custom),
